@@ -54,7 +54,7 @@ fn mutate_bytes(rng: &mut Rng, data: &mut Vec<u8>) {
             .chain(data.iter().enumerate().filter(|(_, b)| **b == b'\n').map(|(i, _)| i + 1))
             .collect();
         let pos = if data.is_empty() { 0 } else { rng.below(data.len() + 1) };
-        match rng.below(17) {
+        match rng.below(18) {
             0 => {
                 // insert a token-built line at a line start
                 let at = *rng.pick(&starts);
@@ -153,6 +153,13 @@ fn mutate_bytes(rng: &mut Rng, data: &mut Vec<u8>) {
                 let tail = *rng.pick(&["", "é", "x", "✓y"]);
                 let l = format!("{ws}{pf}TXTPP#{name} arg\n{ws}{}{tail}\n", " ".repeat(k));
                 data.splice(at..at, l.into_bytes());
+            }
+            16 => {
+                // two live tags, a suffix of one being a prefix of the other, used overlapping
+                let at = *rng.pick(&starts);
+                let (a, b, l) = *rng.pick(&[("NAME_", "_ID", "user=NAME_ID"), ("AB", "BA", "xABAy"), ("é✓", "✓é", "é✓é")]);
+                let t = format!("TXTPP#tag {a}\n-TXTPP#write v1\nTXTPP#tag {b}\n-TXTPP#write v2\n{l}\n");
+                data.splice(at..at, t.into_bytes());
             }
             14 => {
                 // flip a byte
